@@ -1,7 +1,7 @@
 From Coq Require Import ZArith NArith List Bool String.
 From Coq Require Import ExtrOcamlBasic.
 From Falcon.lib Require Import Wire PyStr.
-From Falcon.C09 Require Import Model Spec SpecRfc.
+From Falcon.C09 Require Import Model Spec SpecRfc DateModel DateSpec.
 Import ListNotations.
 Open Scope Z_scope.
 
@@ -40,6 +40,11 @@ Definition d_uacc (v : val) : uacc :=
 Definition v_pairZ (p : Z * Z) : val := L [I (fst p); I (snd p)].
 Definition d_pairZ (v : val) : Z * Z := (dZ (nth_val 0 v), dZ (nth_val 1 v)).
 Definition v_hostport (p : list N * option Z) : val := L [vstr (fst p); vopt I (snd p)].
+
+Definition d_date (v : val) : date :=
+  mk_date (dZ (nth_val 0 v)) (dZ (nth_val 1 v)) (dZ (nth_val 2 v)) (dZ (nth_val 3 v)) (dZ (nth_val 4 v))
+          (dZ (nth_val 5 v)).
+Definition v_date (d : date) : val := L [I (yr d); I (mo d); I (dy d); I (hh d); I (mi d); I (ss d)].
 
 Definition run (v : val) : val :=
   match v with
@@ -83,6 +88,18 @@ Definition run (v : val) : val :=
   | L [I 34; fw; xp; scheme] => vopt vstr (rfc_forwarded_scheme (dopt dstr fw) (dopt dstr xp) (dstr scheme))
   | L [I 35; fw; xh; netloc] => vopt vstr (rfc_forwarded_host (dopt dstr fw) (dopt dstr xh) (dstr netloc))
   | L [I 36; node] => vopt vstr (rfc_node (dstr node))
+  (* HTTP dates *)
+  | L [I 40; pad; d] => vstr (strftime_http (dbool pad) (d_date d))
+  | L [I 41; s; obs] => vopt v_date (http_date_to_dt (dstr s) (dbool obs))
+  | L [I 42; fixed; d; off] =>
+    match dt_to_http (dbool fixed) (mk_pydt (d_date d) (dopt dZ off)) with
+    | SText t => L [I 0; vstr t]
+    | SOverflow => L [I 1]
+    end
+  | L [I 43; d] => I (weekday (d_date d))
+  | L [I 44; d; off] => vopt v_date (to_utc (mk_pydt (d_date d) (dopt dZ off)))
+  | L [I 45; s] => vopt v_date (rfc_imf_fixdate (dstr s))
+  | L [I 46; s] => L [I (match header_as_datetime (dopt dstr s) false with Ok _ => 0 | Http400 => 1 | Crash _ => 2 end)]
   | _ => L [I (-1)]
   end.
 
